@@ -204,7 +204,8 @@ func newC15World(r *rng, detached bool) *c15World {
 	mustGit(w.a, "update-ref", "refs/remotes/origin/bugs-backlog", "HEAD")
 	// unrelated configuration in several shapes
 	for _, kv := range [][2]string{{"foo.bar", "baz"}, {"foo.Sub Section.camelCase", "a value with spaces # and hash"}, {"alias.lg", "log --graph --pretty=format:'%h %s'"},
-		{"branch.feature.remote", "origin"}, {"branch.feature.merge", "refs/heads/feature"}, {"url.https://example.com/.insteadOf", "ex:"}, {"gitbug.notours", "1"}, {"git-bugs.notours", "1"}} {
+		{"branch.feature.remote", "origin"}, {"branch.feature.merge", "refs/heads/feature"}, {"url.https://example.com/.insteadOf", "ex:"}, {"gitbug.notours", "1"}, {"git-bugs.notours", "1"},
+		{"git-bug-prompt.enabled", "true"}, {"git-bug-helper.sub section.key", "v"}} {
 		mustGit(w.a, "config", kv[0], kv[1])
 	}
 	mustGit(w.a, "config", "--add", "remote.origin.fetch", "+refs/pull/*/head:refs/remotes/origin/pr/*")
@@ -361,6 +362,32 @@ func c15Session(c *runCtx, r *rng, gb string, n int) {
 	must(w.a, "user", "new", "-n", "Ann Host", "-e", "ann@example.com", "--non-interactive")
 	must(w.b, "user", "new", "-n", "Bob Clone", "-e", "bob@example.com", "--non-interactive")
 	must(w.a, "bug", "new", "-t", "first "+pickOne(r, titlePool[:3]), "-m", pickOne(r, messagePool[:4]))
+	// git-bug run from a linked working tree of A (`git worktree add`): same repository, same refs, and
+	// nothing of git-bug's in the worktree's private directory
+	if n%2 == 0 {
+		wt := filepath.Join(w.root, "A-linked")
+		if _, err := gitIn(w.a, "worktree", "add", "-q", wt, "feature"); err == nil {
+			snapA = hostSnapshot(w.a, false)
+			before := bugIdsCLI(gb, w.a)
+			if out, err := act(wt, "bug", "new", "-t", "from the linked worktree", "-m", "m"); err != nil {
+				c.violation(c.nCases, "C15/command-failed", "git-bug bug new failed in a linked worktree: "+trunc(out, 200), nil)
+			}
+			after := bugIdsCLI(gb, w.a)
+			refs, _ := gitIn(w.a, "for-each-ref", "--format=%(refname)", "refs/bugs/")
+			if len(after) != len(before)+1 || len(strings.Fields(refs)) != len(after) {
+				c.violation(c.nCases, "C15/linked-worktree", fmt.Sprintf("a bug created from a linked working tree is not a bug of the repository: %d bugs before, %d after, stock git lists %d refs under refs/bugs/", len(before), len(after), len(strings.Fields(refs))), nil)
+			}
+			priv := filepath.Join(w.a, ".git", "worktrees", "A-linked")
+			for _, sub := range []string{"git-bug", "objects", "refs/bugs", "refs/identities", "config"} {
+				if _, err := os.Stat(filepath.Join(priv, sub)); err == nil {
+					c.violation(c.nCases, "C15/linked-worktree", "git-bug created "+sub+" inside the private directory of a linked working tree (.git/worktrees/A-linked)", nil)
+				}
+			}
+			c.count("action=linked-worktree")
+			gitIn(w.a, "worktree", "remove", "--force", wt)
+			snapA = hostSnapshot(w.a, false)
+		}
+	}
 	steps := c.pick(16, 40)
 	for k := 0; k < steps; k++ {
 		dir := w.a
@@ -479,6 +506,11 @@ func c15Session(c *runCtx, r *rng, gb string, n int) {
 	c15Idents(c, w)
 	c.nontrivial(strings.Join(log, "|"))
 	// wipe leaves the host alone too (the fsck, clone and gc above were the harness's doing)
+	// (B has configuration of git-bug's to remove — a web UI preference — next to sections of other tools
+	// whose names start the same way)
+	gitIn(w.b, "config", "git-bug.webui.open", "false")
+	gitIn(w.b, "config", "git-bug-prompt.enabled", "true")
+	gitIn(w.b, "config", "git-bugs.notours", "1")
 	snapA, snapB, snapO = hostSnapshot(w.a, false), hostSnapshot(w.b, false), hostSnapshot(w.origin, true)
 	wout, werr := act(w.b, "wipe")
 	if out, _ := gitIn(w.b, "for-each-ref", "--format=%(refname)"); strings.Contains(out, "refs/bugs/") || strings.Contains(out, "refs/identities/") {
